@@ -125,8 +125,9 @@ def keys_or_canonical(ctx):
 
 
 # --------------------------------------------------------------------------- recursion
-@rule("C20.recursion", props=["C20"], min_instances=5, mutants=[
+@rule("C20.recursion", props=["C20"], min_instances=6, mutants=[
     ("callable result not encoded", ("graph", "        yield encode(o(), tree_types)", "        yield o()")),
+    ("array-valued test looks at the container only", ("graph", "    elif isinstance(o, MultiVector) and len(o.shape) > 1:", "    elif isinstance(o, MultiVector) and getattr(o._values, 'ndim', 1) > 1:")),
     ("tuple elements reversed", ("graph", "        yield o.__class__(encode(value, tree_types) for value in o)", "        yield o.__class__(encode(value, tree_types) for value in reversed(o))")),
 ])
 def recursion(ctx):
@@ -157,6 +158,13 @@ def recursion(ctx):
         ("callable", [lam_b], [pb]),
         ("callable returning a list", [lam_list], [[pa, 255, pb]]),
     ]
+    # array-valued multivector whose coefficients are a list of arrays (what every operator returns for array input)
+    def arr(name):
+        o = Obj("ndarray-element", {"fmt": name, "shape": (2,)})
+        o.getitem = lambda idx: Val(f"{name}[{idx!r}]")
+        return o
+    cloud = mv_obj(alg, (1, 2), [arr("X"), arr("Y")])
+    cells.append(("array-valued (list of arrays)", [cloud], [{"mv": ["X[(0,)]", "Y[(0,)]"], "keys": (1, 2)}, {"mv": ["X[(1,)]", "Y[(1,)]"], "keys": (1, 2)}]))
     for label, subjects, want in cells:
         c = f"{ENC}#tree:{label}"
         try:
